@@ -1933,6 +1933,41 @@ func genC04(ctx *hx.Ctx, emit func(hx.Case)) {
 			emitSite(st, resVals)
 		}
 	}
+	// 2f. F-C04-8: calls WITH options on documents with object examples, inside the class in which the reading at the
+	// example checks is known (no request body anywhere, components.responses not empty, object examples only as the
+	// `example` of parameters below paths): small documents x parameter place x example value x option list
+	{
+		secret := func() map[string]any {
+			return map[string]any{"type": "object", "required": []any{"id", "pw"}, "properties": map[string]any{
+				"id": map[string]any{"type": "string"}, "pw": map[string]any{"type": "string", "writeOnly": true}}}
+		}
+		vals := []map[string]any{{"id": "a", "pw": "b"}, {"id": "a"}, {"pw": "b"}, {"id": "a", "pw": "b", "more": "c"}, {}}
+		lists := [][][]string{{{"EnableExamplesValidation"}}, {{"DisableSchemaPatternValidation"}}, {{"AllowExtensionsWithRef"}, {"EnableSchemaFormatValidation"}},
+			{{"DisableExamplesValidation"}}, {{"DisableExamplesValidation"}, {"EnableExamplesValidation"}}, {{"SetRegexCompiler", "nil"}}}
+		for place := 0; place < 3; place++ {
+			for vi, v := range vals {
+				for li, l := range lists {
+					prm := map[string]any{"name": "cred", "in": "query", "schema": secret(), "example": deepCopy(v)}
+					get := map[string]any{"responses": map[string]any{"200": map[string]any{"description": "ok"}}}
+					item := map[string]any{"get": get}
+					paths := map[string]any{"/p": item}
+					switch place {
+					case 0:
+						get["parameters"] = []any{prm}
+					case 1:
+						item["parameters"] = []any{prm}
+					case 2: // an earlier path with a response of its own, and a second operation
+						get["parameters"] = []any{prm}
+						paths["/a"] = map[string]any{"get": map[string]any{"responses": map[string]any{"default": map[string]any{"$ref": "#/components/responses/R"}}}}
+						item["put"] = map[string]any{"responses": map[string]any{"204": map[string]any{"description": "none"}}}
+					}
+					d := map[string]any{"openapi": "3.0.3", "info": map[string]any{"title": "t", "version": "1"},
+						"components": map[string]any{"responses": map[string]any{"R": map[string]any{"description": "ok"}}}, "paths": paths}
+					emit(c04CaseL(d, nil, l, fmt.Sprintf("modeleak:place%d:v%d:l%d", place, vi, li)))
+				}
+			}
+		}
+	}
 	// 2d. headers that contain themselves (4c7d612): components.headers.H.content.<mt>.encoding.f.headers.X = $ref H,
 	// the variant through an extension target (#/x-h/H), a cycle of two headers, H used from a response; with
 	// violations in the header itself, in its media type, in its encoding object, next to the inner $ref, and under
